@@ -19,6 +19,18 @@ ASSUMPTIONS = ["64-bit hash collisions between unequal keys are ignored",
 
 
 class C04Oracle(worldprop.Oracle):
+    def after(self, idx, op, ob):
+        # the relation is compared over histories: compare and hash everything after every call, so that
+        # anything the library memoises is populated before the next mutation
+        for d in self.im.docs:
+            try:
+                d == d
+                for c in [d] + list(d.bundles):
+                    for r in c.get_records():
+                        hash(r)
+            except Exception as ex:
+                self.fail(idx, "comparison or hash raised", exc=repr(ex)[:200])
+
     def finish(self, ops):
         docs = self.im.docs
         idx = len(ops)
@@ -221,7 +233,8 @@ def run(tier, seed, log, model_runs=True, enlarged=False):
                                    "the program by one content-preserving transformation (same, record/attribute permutation, "
                                    "prefix renaming, duplicate insertion) or one content-changing edit (value, attribute removed/"
                                    "added, identifier, record removed, record kind, extra bundle), compared in both orders through "
-                                   "the model too; at the end all pairs/triples of documents, bundles and sampled records are "
+                                   "the model too; after every call every document is compared with itself and every record hashed (so memoised "
+                                   "state predates later mutations); at the end all pairs/triples of documents, bundles and sampled records are "
                                    "checked: reflexive, symmetric, transitive, != , hash, and == iff library-level content equal; "
                                    "non-trivial = >=2 Eq calls on documents with >=2 records",
                          theorem_note="C04_* over Record.rec_eqb / World.bundle_eqb / doc_eqb")
